@@ -305,7 +305,7 @@ where
         "matrices of {1,2,3,7,8,9,15,16,17,31,33,64,100,127,254,255} columns x 2^3..2^8 (quick) / 2^11 (thorough) rows, per-column polynomials expanded from generated seeds, blowup 2..16, segment width N in {1,2,4,8,16} (column counts that are and are not multiples of N), StarkDomain::from_twiddles with offset {1, generator, random}; ColMatrix::interpolate_columns / evaluate_columns_over / evaluate_columns_at and RowMatrix::evaluate_polys / evaluate_polys_over vs Horner at generated (row, column) sample positions; non-trivial = more than one column and column count not a multiple of N, or an extension field".into()
     }
     fn required_labels(&self, _t: Tier) -> Vec<String> {
-        vec!["cols%N!=0".into(), "cols%N==0".into(), "N=1".into(), "N=16".into()]
+        vec!["cols%N!=0".into(), "cols%N==0".into(), "N=1".into(), "N=16".into(), "air-domain:ce<lde".into()]
     }
     fn strategy(&self, tier: Tier) -> BoxedStrategy<MatCase> {
         let d = E::EXTENSION_DEGREE;
@@ -412,6 +412,28 @@ where
             let x = f.from_base(fp.mul(moff, fp.pow(wbig, r as u128)));
             ensure!(to_el(&ev.get(j, r)) == rp::eval(&f, &mcol(j), &x), "evaluate_columns_over/value", "entry (row {r}, column {j}) differs from direct evaluation");
         }
+        // the same through a domain built the way the prover builds it, with a constraint-evaluation
+        // blowup (2) that is smaller than the LDE blowup whenever the latter is > 2
+        if n >= 8 {
+            let options = winter_air::ProofOptions::new(1, blowup, 0, winter_air::FieldExtension::None, 2, 0);
+            let air = <TinyAir<B<E>> as winter_air::Air>::new(winter_air::TraceInfo::new(1, n), (), options);
+            let dom = StarkDomain::new(&air);
+            let moff_g = fp.generator;
+            ensure!(dom.lde_domain_size() == big && dom.trace_to_lde_blowup() == blowup, "domain-from-air/accessors", "StarkDomain::new accessors");
+            obs.label(if dom.ce_domain_size() < dom.lde_domain_size() { "air-domain:ce<lde" } else { "air-domain:ce=lde" });
+            let ev = polys.evaluate_columns_over(&dom);
+            ensure!(ev.num_rows() == big && ev.num_cols() == cols, "evaluate_columns_over(air-domain)/shape", "shape {}x{} expected {big}x{cols}", ev.num_rows(), ev.num_cols());
+            let rm = RowMatrix::<E>::evaluate_polys_over::<8>(&polys, &dom);
+            ensure!(rm.num_rows() == big && rm.num_cols() == cols, "evaluate_polys_over(air-domain)/shape", "shape");
+            for k in 0..6 {
+                let r = pick_index(c.positions[k], big);
+                let j = pick_index(c.positions[12 + k], cols);
+                let x = f.from_base(fp.mul(moff_g, fp.pow(wbig, r as u128)));
+                let want = rp::eval(&f, &mcol(j), &x);
+                ensure!(to_el(&ev.get(j, r)) == want, "evaluate_columns_over(air-domain)/value", "entry (row {r}, column {j}) differs from direct evaluation over the LDE domain");
+                ensure!(to_el(&rm.get(j, r)) == want, "evaluate_polys_over(air-domain)/value", "entry (row {r}, column {j}) differs from direct evaluation over the LDE domain");
+            }
+        }
         let (x, mx) = build::<E>(&c.x);
         let at = polys.evaluate_columns_at(x);
         ensure!(at.len() == cols, "evaluate_columns_at/len", "length");
@@ -436,6 +458,33 @@ where
             }
         }
         Ok(())
+    }
+}
+
+// A minimal computation description, used only to obtain a `StarkDomain` the way the prover does
+// (`StarkDomain::new(&air)`): one column, one transition constraint of the given degree, so that the
+// constraint-evaluation blowup can be smaller than the LDE blowup.
+pub struct TinyAir<B: winter_math::StarkField + winter_math::ExtensibleField<2> + winter_math::ExtensibleField<3>> {
+    context: winter_air::AirContext<B>,
+}
+impl<B: winter_math::StarkField + winter_math::ExtensibleField<2> + winter_math::ExtensibleField<3>> winter_air::Air for TinyAir<B> {
+    type BaseField = B;
+    type PublicInputs = ();
+    type GkrProof = ();
+    type GkrVerifier = ();
+    fn new(trace_info: winter_air::TraceInfo, _pub_inputs: (), options: winter_air::ProofOptions) -> Self {
+        // degree 2: the constraint evaluation blowup is 2 whatever the LDE blowup is
+        let context = winter_air::AirContext::new(trace_info, vec![winter_air::TransitionConstraintDegree::new(2)], 1, options);
+        TinyAir { context }
+    }
+    fn context(&self) -> &winter_air::AirContext<B> {
+        &self.context
+    }
+    fn evaluate_transition<E: FieldElement<BaseField = B>>(&self, frame: &winter_air::EvaluationFrame<E>, _p: &[E], result: &mut [E]) {
+        result[0] = frame.next()[0] - frame.current()[0];
+    }
+    fn get_assertions(&self) -> Vec<winter_air::Assertion<B>> {
+        vec![winter_air::Assertion::single(0, 0, B::ZERO)]
     }
 }
 
